@@ -48,7 +48,7 @@ def batches(ctx):
 
 RULE = ("every history of depth 4 (quick) / 5 (thorough) over 13 letters (thorough also: depth 4 over 18 letters) building the containment chain domain -> "
         "complex/strand -> macrostate -> reaction on four slots with drops in every order, redefinitions with other "
-        "parameters, look-ups, a query, turns and ~; random and drop-heavy random histories over all 23 classes; after every "
+        "parameters, look-ups, a query, turns and ~; random and drop-heavy random histories over all 25 classes; after every "
         "step the weakref liveness of every object ever handed out is compared with the model's liveness flags "
         "(gc disabled: release must be immediate), together with both registries; distinct = distinct final observable states")
 
